@@ -78,6 +78,16 @@ def c18_1(ctx):
     ctx.note("unresolved calls: %s" % sorted(ex.unresolved.items())[:8])
 
 
+def cache_calls(ctx):
+    """(module, call node, key expr, cached function expr) for every <parseable_str>.cache(key, f) call in the repo"""
+    out = []
+    for m in ctx.p.modules.values():
+        for n in ast.walk(m.tree):
+            if isinstance(n, ast.Call) and isinstance(n.func, ast.Attribute) and n.func.attr == "cache" and len(n.args) == 2 and not n.keywords:
+                out.append((m, n, n.args[0], n.args[1]))
+    return out
+
+
 # ------------------------------------------------------------------ C18.2
 def c18_2(ctx):
     f = ctx.func(PSTR, "parseable_str.cache")
